@@ -21,9 +21,11 @@ LEVEL = 'exploration'
 RULE = ('A case is (data set, query, optional page): data = the C01 data sets (0-4 A, 0-6 B, 0-3 C rows, NULLs, empty strings, LIKE '
         'metacharacters; non-ASCII strings replaced, counted) plus two boolean columns derived from the rows; query = a C01 query '
         '(vlib/qgen.queries) or a single-loop query from the dialect-sensitive families of vlib/c02_gen.py (boolean attributes, '
-        'constants and parameters in conditions / comparisons / coalesce / conditional expressions / int+bool arithmetic, // and % '
-        'with non-negative dividend and positive constant divisor, strip/lstrip/rstrip(chars), str(int), tuple comparisons, tuple '
-        'IN subquery), optionally ordered by primary key (asc/desc) and cut by [a:b], [a:], .limit(), .page(). Each case runs on '
+        'constants and parameters in conditions / comparisons / coalesce / conditional expressions / bool() / int+bool arithmetic, '
+        '// and % with non-negative dividend and positive constant divisor, string concatenation, slices and length-guarded '
+        'indexing with constant bounds -3..4, upper/lower/strip, strip/lstrip/rstrip(chars), str(int), startswith/endswith/in '
+        'with non-constant patterns, tuple comparisons, tuple IN subquery; also as (pk, string expression) projections), optionally '
+        'ordered by primary key (asc/desc) and cut by [a:b], [a:], [:b], .limit(), .page(). Each case runs on '
         'live SQLite, emulated PostgreSQL and emulated MySQL (+ Oracle / CockroachDB at text level). Non-trivial = pony accepted '
         'the query on SQLite and on at least one of PostgreSQL / MySQL, that dialect was judged, and its SQL text differs from the '
         'SQLite text in more than identifier quoting, identifier case and placeholder style (i.e. a dialect-overridden builder '
